@@ -54,7 +54,8 @@ def evaluate(spec):
     r = cont.get("tsresol", 6)
     labels = ["fmt:" + cont["fmt"] + ("-ns" if cont.get("nano") else ""), "endian:" + ("be" if cont.get("endian", "<") == ">" else "le"),
               "tsresol:" + ("2^-%d" % (r & 0x7F) if r & 0x80 else "10^-%d" % r), "tsoffset" if cont.get("tsoffset") else "no-offset",
-              "extra-blocks:%d" % len(cont.get("extra") or []), "exact-us" if exact_us else "sub-us"]
+              "extra-blocks:%d" % len(cont.get("extra") or []), "exact-us" if exact_us else "sub-us",
+              "opt-order:" + ("offset,resol" if cont.get("offset_first") else "resol,offset")]
     nontrivial = dims >= 2 and bool(o0.pkts)
     if f1:
         return {"sig": f"variant container ({labels[0]}, {labels[2]}): " + f1, "detail": (o1.run.exc or "")[-300:], "nontrivial": nontrivial, "labels": labels}
@@ -88,6 +89,7 @@ def container(draw):
         return c
     c["tsresol"] = draw(st.one_of(st.integers(0, 9), st.integers(1, 30).map(lambda k: 0x80 | k), st.just(6)))
     c["tsoffset"] = draw(st.sampled_from([0, 0, 1, 3600, 1_600_000_000, -5]))
+    c["offset_first"] = draw(st.booleans())          # order of the if_tsresol / if_tsoffset options inside the IDB
     n = draw(st.integers(0, 4))
     c["extra"] = [[draw(st.integers(0, 50)), draw(st.sampled_from([4, 5, 0x00000BAD, 0x40000BAD, 0x7777, 0x0000000B])), 4 * draw(st.integers(0, 12))]
                   for _ in range(n)]
